@@ -1340,12 +1340,20 @@ class Authenticated(BaseClientHandler):
                 # Do an EXPUNGE if there are any messages marked 'Delete'
                 #
                 if self.mbox.sequences.get("Deleted", []):
-                    uid_msg_set = (
-                        list(cmd.msg_set_as_set)
-                        if cmd.uid_command and cmd.msg_set_as_set
-                        else None
-                    )
-                    await self.mbox.expunge(uid_msg_set=uid_msg_set)
+                    if cmd.uid_command:
+                        # `msg_set_as_set` is the UID set converted to message
+                        # sequence numbers (UIDs that do not exist are
+                        # dropped); `expunge()` wants UIDs. If none of the
+                        # UIDs exist there is nothing to expunge.
+                        #
+                        uid_msg_set = [
+                            self.mbox.uids[x - 1]
+                            for x in sorted(cmd.msg_set_as_set or [])
+                        ]
+                        if uid_msg_set:
+                            await self.mbox.expunge(uid_msg_set=uid_msg_set)
+                    else:
+                        await self.mbox.expunge()
         finally:
             self.idling = idling
 
